@@ -26,7 +26,7 @@ func init() {
 		Real:           []string{"client send loop, sync rounds, reply parser, history store, energy file reader", "server report handler, sync handler, rotation loop, restart"},
 		Stub:           []string{"kernel sockets (UDP queue / simulated TCP connections with a fault layer)", "the meter firmware (harness writes energy_data.csv)"},
 		Assumptions:    []string{"readings fit 32 signed bits (the property's own restriction)", "the coverage claim is about the server contacted by the final sync round"},
-		RequiredProbes: []string{"c08.recovered-by-retransmission", "c08.negative-reading", "c08.sentinel-reading", "c08.sync-failed-before", "c08.rotation", "c08.server-restart", "c08.dup-retransmission"},
+		RequiredProbes: []string{"c08.recovered-by-retransmission", "c08.negative-reading", "c08.sentinel-reading", "c08.sync-failed-before", "c08.rotation", "c08.server-restart", "c08.dup-retransmission", "c08.long-outage", "c08.old-slot-probed"},
 		RequiredSites:  []string{"send.wake", "send.tick", "csync.start", "csync.wake", "csync.resend", "report.after-write"},
 	})
 }
@@ -147,7 +147,17 @@ func runC08(m *Sim) {
 			}
 			cl.MeterAppend(slot, v, m.C.Int("sec", 300))
 		}
-		switch m.C.Weighted("event", 40, 1, 1, 1) {
+		switch m.C.Weighted("event", 40, 1, 1, 1, 1) {
+		case 4: // a long outage: days pass (the window still holds the older slots)
+			if servers[0].Up {
+				off := cOffset(servers[0])
+				jump := uint32(300 + m.C.Int("outage-slots", 700))
+				if slot+jump < off+3100 {
+					slot += jump
+					SetSlot(slot)
+					m.Probe("c08.long-outage")
+				}
+			}
 		case 1: // a server goes down or comes back
 			n := servers[m.C.Int("which", len(servers))]
 			if n.Up {
@@ -231,14 +241,20 @@ func runC08(m *Sim) {
 		}
 	}
 	recovered := 0
+	var oldSlots []uint32
 	for t := start; t <= slot; t++ {
 		if t < snap.Offset || t >= snap.Offset+4032 {
 			continue
 		}
-		if int64(t) < int64(now)-432 || int64(t) > int64(now)+432 {
+		if cl.HistoryValue(t) < 2 {
 			continue
 		}
-		if cl.HistoryValue(t) < 2 {
+		if int64(t) < int64(now)-432 || int64(t) > int64(now)+432 {
+			// Outside the documented acceptance range nothing is owed - unless
+			// this server's range is in fact wider (probed after this pass).
+			if !have[t] {
+				oldSlots = append(oldSlots, t)
+			}
 			continue
 		}
 		if !have[t] {
@@ -247,6 +263,23 @@ func runC08(m *Sim) {
 		if lost[t] && cap.count[t] > 1 {
 			recovered++
 		}
+	}
+	// The acceptance range that counts is the server's own: the datagram of
+	// every unrecovered older slot is handed to it (end of the run, the state
+	// is not used afterwards); a server that stores it accepts more than the
+	// device retransmits.
+	for _, t := range oldSlots {
+		probe := cap.first[t]
+		if probe == nil {
+			probe = SignedReport(dev.Key, dev.ID, t, uint64(int32(cl.HistoryValue(t)))).Encode()
+		}
+		contacted.Datagram(probe)
+		for _, sl := range contacted.Snap().Reports[dev.ID] {
+			if snap.Offset+sl.Index == t {
+				m.Fail("C08.cover", "server-accepts", "after faults stopped and a sync round completed against %s, timeslot %d (reading %d, now=%d) has no record although that server still accepts a report for it: its acceptance range is wider than what the device retransmits", contacted.Name, t, cl.HistoryValue(t), now)
+			}
+		}
+		m.Probe("c08.old-slot-probed")
 	}
 	m.NoteState(len(have), len(lost), recovered, snap.Offset, ns)
 	if recovered > 0 {
